@@ -36,7 +36,7 @@ logging.disable(logging.CRITICAL)   # the loop logs every failed send; not an ob
 SYNC, PING, RESYNC = 0, 1, 2
 TNAME = {0: 'SYNC', 1: 'PING', 2: 'RESYNC', None: 'nothing'}
 DEFAULT_CFG = (30, 60, 5, 5, 10)            # documented constructor defaults (period_ping, period_resync, attempt_stash, attempt_ping, attempt_resync)
-CFGS = [None, (20, 50, 3, 7, 11), (10, 10, 4, 2, 6)]
+CFGS = [None, (20, 50, 3, 7, 11), (10, 10, 4, 2, 6), (12, 6, 3, 2, 4)]      # the last: full transfer after LESS silence than a ping (nobody forbids it)
 CFG_KEYS = ('period_ping', 'period_resync', 'attempt_stash', 'attempt_ping', 'attempt_resync')
 
 
@@ -640,7 +640,8 @@ def random_case(rng, idx):
     urns = ['a', 'b', 'c', 'd'][:n]
     rng.shuffle(urns)
     self_urn = 'a'
-    cfgv = rng.choice(CFGS + [(rng.randint(2, 9), rng.randint(9, 15), rng.randint(0, 4), rng.randint(0, 4), rng.randint(0, 5))])
+    cfgv = rng.choice(CFGS + [(rng.randint(2, 9), rng.randint(9, 15), rng.randint(0, 4), rng.randint(0, 4), rng.randint(0, 5)),
+                             (rng.randint(6, 15), rng.randint(2, 9), rng.randint(0, 4), rng.randint(0, 4), rng.randint(0, 5))])
     cfg = cfgv or DEFAULT_CFG
     flag = rng.randint(0, 1)
     weird = rng.random() < 0.15         # clocks may start early / negative / run backwards
@@ -787,7 +788,7 @@ SPEC = PropSpec(
     search=search,
     rule='single-pass grid: (seconds since contact) ∈ {0, period_ping−1/0/+1, period_resync−1/0/+1} × (seconds since attempt) ∈ '
          '{attempt_stash, attempt_ping, attempt_resync}−1/0/+1 × queue ∅/1/2 × backlog ∅/1 × flag on/off × send outcome ok/timeout/error '
-         '× 3 period configurations (constructor defaults, (20,50,3,7,11), (10,10,4,2,6)) × 1 peer and 2 peers (second peer in a random '
+         '× 4 period configurations (constructor defaults, (20,50,3,7,11), (10,10,4,2,6), (12,6,3,2,4): resync period below the ping period) × 1 peer and 2 peers (second peer in a random '
          'threshold state, own device first/middle/last in the dict); plus seeded random multi-pass runs (400 quick / 20000 thorough, 8–40 '
          'steps, 1–3 peers, passes with clock advances by the configured periods ±1, queue insertions, incoming SYNC/PING/RESYNC with '
          'flags 0–3 through the real listener handler, 15 % with early/negative/backwards clocks; in 35 % of the passes 1–3 listener '
